@@ -68,15 +68,17 @@ def kill3(args):
     res = {}
     fs = [e.submit(nap, i, args.get("nap", 0.3)) for i in range(args.get("ntasks", 3))]
     pids = sorted(e._processes)
-    res["futures"] = [_summ(f, args.get("wait", 12)) for f in fs]
+    res["futures"] = [_summ(f, args.get("wait", 6)) for f in fs]
+    if args.get("timeout"):
+        time.sleep(args.get("idle", 1.5))        # let the workers reach their idle timeout
     try:
         f = e.submit(ident, 7)
-        res["late_submit"] = ["accepted"] + _summ(f, 8)
+        res["late_submit"] = ["accepted"] + _summ(f, 6)
     except BaseException as ex:
         res["late_submit"] = ["exc", type(ex).__name__, [k.__name__ for k in type(ex).__mro__[1:4]]]
     br = e._flags.broken
     res["broken"] = None if br is None else [type(br).__name__, str(br)[:400]]
-    ok, _ = with_timeout(lambda: e.shutdown(wait=True), args.get("shutdown_wait", 12))
+    ok, _ = with_timeout(lambda: e.shutdown(wait=True), args.get("shutdown_wait", 8))
     res["shutdown_returned"] = ok
     time.sleep(0.2)
     res["pids"] = pids
